@@ -32,6 +32,28 @@ CHECKS['C13'] = dict(level=MC, ref='4 C13',
          'tol/tol_block in {0,1/3,1/2,1} scalar or dict. Decompositions: spectra without exact zeros and tolerances off exact boundaries (float round-off decides there); '
          'error equality observed at 1e-6 on integers. truncate_multiplets / mask_f not modelled yet.',
     technique='TLA+ spec (Truncation) + TLC exhaustive model checking + trace validation: one implementation test per spec input, membership in the admissible set decided by TLC')
+TT = ('programs executed on real yastn tensors; every event logs the observed abstract state alpha(result) (or the rejection) and TLC (TraceTensor.tla, batched trace validation) '
+      'recomputes the result from the OBSERVED operands with the label-based reference semantics of TensorOps.tla in exact Gaussian-integer arithmetic, independently of yastn and NumPy')
+CHECKS['C01'] = dict(level=MC, ref='4 C01',
+    text=TT + '. Decided per event: acceptance vs YastnError, every element value, total charge, signatures, documented leg order, admissible leg sectors, '
+         'fusion trees, and that block access / to_numpy / to_nonsymmetric / get_blocks_* describe the same array. Ops: add/sub/n-ary add with amplitudes, scalar mult, conj, conj_blocks, '
+         'flip_signature, flip_charges, transpose, tensordot (outer, diagonal operands, conj flags), vdot, trace, add_leg, remove_leg, fuse/unfuse, copy, consume_transpose.',
+    note='bounded: ranks 0..4, <=3 sectors per leg, dims 1..2, programs of 7 (quick) / 9 (thorough) steps, 320 / 4000 programs over all 7 symmetries, real+complex, diagonal operands; '
+         'broadcast/apply_mask/diag/ncon/einsum are exercised in C05/C14 (ncon, einsum, swap_gate) and not yet as separate C01 events; alpha reads fused tensors through unfuse_legs',
+    technique='TLA+ reference semantics (TensorOps) + TLC trace validation of recorded programs (I->S), state = observed registers')
+CHECKS['C02'] = dict(level=MC, ref='4 C02',
+    text=TT + '. WellFormed (abstract view) and RawOK (raw block structure: charge rule under Charges!Add for every stored block, unique ordered blocks, one dimension per (leg, charge), '
+         'size, is_consistent()) are conjuncts of every event; Inv_WF is an INVARIANT over all registers after every event; the charge law of each operation is part of its reference. '
+         'Program profile: ranks up to 6+, n-ary additions over operands in different lazy-transposition states, add_leg/remove_leg over fused groups with mixed signatures, both fusion modes.',
+    note='bounded as C01 but ranks up to 6 (one or two sectors per leg), 9/12-step programs, 420/6000 programs; factorisation results are checked with the same operators in C04',
+    technique='TLA+ invariant (WellFormed / RawOK / Inv_WF) evaluated by TLC on every observed state of recorded programs')
+CHECKS['C03'] = dict(level=MC, ref='4 C03',
+    text=TT + '. In the spec fusion only regroups native legs (fusion trees), never touches an element, so unfuse(fuse(x)) = x, norm invariance and "operations over fused legs = operations over '
+         'the original legs, missing sectors are zeros" hold by construction and are decided on the implementation. Scenarios: S1 binary ops over identically fused operands whose legs are '
+         'independent subsets of one universe (equal/overlapping/disjoint content), S2 trace over fused legs, S3 incompatibly fused operands (order, partition, mode, hidden constituent signature) '
+         'must end in YastnError, S4 fuse to depth<=3 / unfuse roundtrip; hard, meta and mixed; lazy transpositions.',
+    note='bounded: ranks 2..4, universes of 2-3 charges, dims 1..2, 1260 (quick) / 12000 (thorough) scenarios; yastn.block (sum legs) not covered',
+    technique='TLA+ label model of fusion (TensorOps) + TLC trace validation of recorded scenario programs')
 NA = {}
 m = {"version": 1, "setup_cmd": "true",
      "hooks": {"guard": "YASTN_VERIF", "enable": "no source hooks so far: the harness wraps the public API from outside and imports yastn live from /repo (override: VERIF_REPO)",
